@@ -24,10 +24,10 @@ const (
 	// runtime: goroutine stack exceeds 1000000000-byte limit
 	// fatal error: stack overflow. Was 250k but adding a log
 	// in Error() makes it go over that (somehow).
-	DefaultMaxDepth    = 150_000
+	DefaultMaxDepth = 150_000
 	// Maximum total nesting of evaluation steps (calls, blocks, literals, operands), whatever MaxDepth is:
 	// keeps the Go stack under its 1GB limit when each call level nests many blocks.
-	MaxNesting = 250_000
+	MaxNesting         = 250_000
 	DefaultMaxDuration = 10 * time.Second
 )
 
@@ -38,6 +38,7 @@ type State struct {
 	macroState *object.Environment
 	env        *object.Environment
 	rootEnv    *object.Environment // same as ancestor of env but used for reset in panic recovery.
+	cacheEpoch int64               // rootEnv.NumCreated() when the cache was last known to be valid.
 	cache      Cache
 	cacheAdded int // approximate bytes added to the cache since memory was last checked.
 	Extensions object.ExtensionMap
